@@ -137,6 +137,11 @@ local function collect(...) local t = table.pack(...) return t.n end emit("packe
 	{"tbc-and-errors", `local log = {} local function closer(id) return setmetatable({}, {__close = function(_, e) log[#log + 1] = id .. ":" .. tostring(e ~= nil) end}) end
 local function f(n) local c <close> = closer(n) if n == 0 then error("stop", 0) end return f(n - 1) end
 for round = 1, 5 do pcall(f, 20) end emit("tbc", #log, log[1], log[#log])`},
+	{"finaliser-order-remark", `local function mk(name) local mt = {__gc = function() emit("gc", name) end} return setmetatable({}, mt), mt end
+ga, gamt = mk("a") gb = mk("b") gc_ = mk("c") setmetatable(ga, gamt) gd = mk("d") emit("marked", N)`},
+	{"finaliser-order-many", `keep = {} for i = 1, math.min(N, 200) do keep[i] = setmetatable({}, {__gc = function() emit("gc", i) end}) end
+for i = 1, #keep, 7 do setmetatable(keep[i], getmetatable(keep[i])) end emit("marked", #keep)`},
+	{"finaliser-in-context", `local held = {} for i = 1, 5 do held[i] = setmetatable({}, {__gc = function() emit("gc", i) end}) end setmetatable(held[2], getmetatable(held[2])) emit("marked")`},
 	{"coroutine-pipeline", `local function gen(n) return coroutine.wrap(function() for i = 1, n do coroutine.yield(i) end end) end
 local function filter(p, g) return coroutine.wrap(function() for v in g do if p(v) then coroutine.yield(v) end end end) end
 local s = 0 for v in filter(function(x) return x % 3 == 0 end, filter(function(x) return x % 2 == 0 end, gen(N))) do s = s + v end emit("pipeline", s)`},
